@@ -55,10 +55,16 @@ type c02Setup struct {
 	Root      map[string]interface{} `json:"root"`
 	Envs      []map[string]interface{} `json:"envs"`
 	Resolvers []resolverTable        `json:"resolvers"`
+	MaxIdx    int64                  `json:"maxidx,omitempty"` // 0: the default (1024)
 }
 
 func (s c02Setup) build() (*ucfg.Config, []ucfg.Option, string, bool) {
 	base := []ucfg.Option{ucfg.PathSep("."), ucfg.VarExp}
+	mx := int64(1024)
+	if s.MaxIdx != 0 {
+		mx = s.MaxIdx
+		base = append(base, ucfg.MaxIdx(mx))
+	}
 	var root *ucfg.Config
 	var err error
 	if len(s.Parts) > 0 {
@@ -89,13 +95,13 @@ func (s c02Setup) build() (*ucfg.Config, []ucfg.Option, string, bool) {
 		opts = append(opts, ucfg.Resolve(t.fn()))
 		res = append(res, t.coq())
 	}
-	no := normOpts{Sep: ".", VarExp: true}
+	no := normOpts{Sep: ".", VarExp: true, MaxIdx: s.MaxIdx}
 	var ft []string
 	for _, f := range []float64{0.5, -1.25, 3, 1e10, 1000, 1, 7, 0.1, -3} {
 		ft = append(ft, fmt.Sprintf("(%s, %s)", coqZu(mathFloat64bits(f)), coqStr(fmt.Sprintf("%v", f))))
 	}
-	coq := fmt.Sprintf("{| eo_p := {| p_sep := \".\"; p_maxIdx := 1024; p_numKeys := false; p_escape := false |}; eo_envs := %s; eo_res := %s; eo_noparse := false; eo_nocomma := false; eo_n := %s; eo_ftext := %s |}",
-		coqList(envs), coqList(res), no.coq(), coqList(ft))
+	coq := fmt.Sprintf("{| eo_p := {| p_sep := \".\"; p_maxIdx := %d; p_numKeys := false; p_escape := false |}; eo_envs := %s; eo_res := %s; eo_noparse := false; eo_nocomma := false; eo_n := %s; eo_ftext := %s |}",
+		mx, coqList(envs), coqList(res), no.coq(), coqList(ft))
 	return root, opts, coq, true
 }
 
@@ -104,7 +110,11 @@ func encSetup(s c02Setup) interface{} {
 	for _, e := range s.Envs {
 		envs = append(envs, encTree(e))
 	}
-	return map[string]interface{}{"root": encTree(s.Root), "envs": envs, "resolvers": s.Resolvers}
+	out := map[string]interface{}{"root": encTree(s.Root), "envs": envs, "resolvers": s.Resolvers}
+	if s.MaxIdx != 0 {
+		out["maxidx"] = s.MaxIdx
+	}
+	return out
 }
 
 var c08Mode bool
@@ -126,8 +136,8 @@ func c02Cases(g *Gen, s c02Setup, tags ...string) {
 	// paths that walk THROUGH a setting that is an expression (it may stand for a container)
 	for _, k := range sortedKeys(s.Root) {
 		if str, ok := s.Root[k].(string); ok && strings.Contains(str, "${") && !strings.Contains(k, ".") {
-			for _, sub := range []string{"q", "r", "x", "k", "inner", "b", "0", "x.k"} {
-				if len(names) < 40 {
+			for _, sub := range []string{"q", "r", "x", "k", "inner", "b", "0", "x.k", "b.c", "q.r"} {
+				if len(names) < 48 {
 					names = append(names, k+"."+sub)
 				}
 			}
@@ -148,6 +158,21 @@ func c02Cases(g *Gen, s c02Setup, tags ...string) {
 		g.Add(Case{Coq: fmt.Sprintf("CRead %s %s %s (-1) %s", eo, rootC, coqStr(n), obs),
 			Desc: map[string]interface{}{"kind": "read", "setup": encSetup(s), "tree": descValueExp(dump), "name": n, "observed": d},
 			Tags: append([]string{"read", "read:" + strings.SplitN(d, "(", 2)[0][:min(3, len(d))]}, tags...), Nontrivial: true})
+		if c08Mode {
+			var has bool
+			var herr error
+			var hobs, hd string
+			if p, m := guard(func() { has, herr = root.Has(n, -1, opts...) }); p {
+				hobs, hd = "OPanic", "PANIC "+m
+			} else if herr != nil {
+				hobs, hd = coqErr(herr), descErr(herr)
+			} else {
+				hobs, hd = fmt.Sprintf("(OV (VBool %v))", has), fmt.Sprint(has)
+			}
+			g.Add(Case{Coq: fmt.Sprintf("CHas %s %s %s (-1) %s", eo, rootC, coqStr(n), hobs),
+				Desc: map[string]interface{}{"kind": "has", "setup": encSetup(s), "tree": descValueExp(dump), "name": n, "observed": hd},
+				Tags: append([]string{"has", "has:" + hd[:min(4, len(hd))]}, tags...), Nontrivial: true})
+		}
 	}
 	var m map[string]interface{}
 	var uerr error
@@ -175,7 +200,10 @@ func c02Cases(g *Gen, s c02Setup, tags ...string) {
 			Desc: map[string]interface{}{"kind": "flat", "setup": encSetup(s), "tree": descValueExp(dump), "observed": kd},
 			Tags: append([]string{"flat"}, tags...), Nontrivial: true})
 	}
-	c02Typed(g, s, root, opts, eo, rootC, dump, tags)
+	c02Typed(g, s, root, opts, eo, rootC, dump, tags, false)
+	if c08Mode {
+		c02Typed(g, s, root, opts, eo, rootC, dump, tags, true)
+	}
 	g.Add(Case{Coq: fmt.Sprintf("CUnpackDyn %s %s %s", eo, rootC, xo),
 		Desc: map[string]interface{}{"kind": "unpack", "setup": encSetup(s), "tree": descValueExp(dump), "observed": xd},
 		Tags: append([]string{"unpack"}, tags...), Nontrivial: true})
@@ -184,10 +212,10 @@ func c02Cases(g *Gen, s c02Setup, tags ...string) {
 // c02Typed: Unpack into a struct with one string field per plain top-level setting and one
 // []string field per literal list: fields and list entries are evaluated one after the other by
 // one call, and none may see the references of its neighbours as being evaluated
-func c02Typed(g *Gen, s c02Setup, root *ucfg.Config, opts []ucfg.Option, eo, rootC string, dump *ucfg.VerifNode, tags []string) {
+func c02Typed(g *Gen, s c02Setup, root *ucfg.Config, opts []ucfg.Option, eo, rootC string, dump *ucfg.VerifNode, tags []string, allSlices bool) {
 	type fld struct {
 		key  string
-		list int // -1: a string field
+		list int // -1: a string field, -2: a []string field for a setting that is no literal list
 	}
 	var fs []fld
 	for _, k := range sortedKeys(s.Root) {
@@ -208,7 +236,12 @@ func c02Typed(g *Gen, s c02Setup, root *ucfg.Config, opts []ucfg.Option, eo, roo
 				fs = append(fs, fld{k, len(x)})
 			}
 		default:
-			fs = append(fs, fld{k, -1})
+			if allSlices || g.R.P(1, 3) {
+				// a []string field for a setting that is no literal list: it may name one
+				fs = append(fs, fld{k, -2})
+			} else {
+				fs = append(fs, fld{k, -1})
+			}
 		}
 	}
 	if len(fs) == 0 || len(s.Parts) > 0 {
@@ -221,10 +254,18 @@ func c02Typed(g *Gen, s c02Setup, root *ucfg.Config, opts []ucfg.Option, eo, roo
 		if f.list >= 0 {
 			t = reflect.TypeOf([]string(nil))
 			cf = append(cf, fmt.Sprintf("TList %s %d", coqStr(f.key), f.list))
+		} else if f.list == -2 {
+			t = reflect.TypeOf([]string(nil))
+			cf = append(cf, "TSlice "+coqStr(f.key))
 		} else {
 			cf = append(cf, "TStr "+coqStr(f.key))
 		}
-		sf = append(sf, reflect.StructField{Name: fmt.Sprintf("F%d", i), Type: t, Tag: reflect.StructTag(fmt.Sprintf(`config:"%s"`, f.key))})
+		handling := ""
+		if f.list != -1 && g.R.Bool() {
+			// a merge policy of its own: the field is unpacked with a copy of the call's options
+			handling = []string{",append", ",prepend", ",replace"}[g.R.Intn(3)]
+		}
+		sf = append(sf, reflect.StructField{Name: fmt.Sprintf("F%d", i), Type: t, Tag: reflect.StructTag(fmt.Sprintf(`config:"%s%s"`, f.key, handling))})
 	}
 	target := reflect.New(reflect.StructOf(sf))
 	var uerr error
@@ -241,7 +282,7 @@ func c02Typed(g *Gen, s c02Setup, root *ucfg.Config, opts []ucfg.Option, eo, roo
 		var ents []string
 		for i, f := range fs {
 			v := target.Elem().Field(i)
-			if f.list >= 0 {
+			if f.list >= 0 || f.list == -2 {
 				var es []string
 				for j := 0; j < v.Len(); j++ {
 					es = append(es, "OStr "+coqStr(v.Index(j).String()))
@@ -359,6 +400,12 @@ func genC02(g *Gen, c08 bool) {
 			{Root: map[string]interface{}{"a": "${a.b}"}},
 			{Root: map[string]interface{}{"x": "${y.k}", "y": "${x.k}"}},
 			{Root: map[string]interface{}{"o": map[string]interface{}{"k": "v"}, "p": "${o}", "q": "${p.k}", "r": "${q}${p.k}"}},
+			// chains of references that end in a list / a single value, read into []string fields (F62)
+			{Root: map[string]interface{}{"a": "${b}", "b": "${c}", "c": []interface{}{1, 2}, "d": "${e}", "e": "${f}", "f": 7}},
+			// two fields that name the same list as a whole
+			{Root: map[string]interface{}{"a": "${l}", "b": "${l}", "c": "${b}", "l": []interface{}{1, 2}}},
+			// a path that two steps of Has walk through the same reference (F63)
+			{Root: map[string]interface{}{"a": "${x}", "x": map[string]interface{}{"b": "${x}", "c": 1}}},
 		} {
 			c02Cases(g, s, fmt.Sprintf("witness08:%d", i))
 		}
@@ -393,10 +440,41 @@ func genC02(g *Gen, c08 bool) {
 			c02Expr(g, txt)
 		}
 	}
+	if c08 {
+		// cycles that a default absorbs, entered from outside, with members that turn the cyclic
+		// error into another one (an error operator, an alternative): every setting still evaluates
+		c02Cases(g, c02Setup{Root: map[string]interface{}{"a": "${z}", "z": "${b:d}", "b": "${z:?boom}"}}, "witness08:absorbed")
+		c02Cases(g, c02Setup{Root: map[string]interface{}{"a": "${z}", "b": "${y.k}", "y": "${z}", "z": "${b:${o}}", "o": "{k: 1}"}}, "witness08:absorbed")
+		ring := []string{"a", "b", "c", "d", "e"}
+		for i := 0; i < g.N/3; i++ {
+			k := 3 + r.Intn(3)
+			s := c02Setup{Root: map[string]interface{}{}}
+			for j := 0; j < k; j++ {
+				o1, o2 := ring[r.Intn(k)], ring[r.Intn(k)]
+				var v string
+				switch r.Intn(8) {
+				case 0, 1:
+					v = fmt.Sprintf("${%s}", o1)
+				case 2, 3:
+					v = fmt.Sprintf("${%s:d%d}", o1, j)
+				case 4:
+					v = fmt.Sprintf("${%s:?boom%d}", o1, j)
+				case 5:
+					v = fmt.Sprintf("${%s:+alt%d}", o1, j)
+				case 6:
+					v = fmt.Sprintf("${%s:${%s:e%d}}", o1, o2, j)
+				default:
+					v = fmt.Sprintf("v%d", j)
+				}
+				s.Root[ring[j]] = v
+			}
+			c02Cases(g, s, "ring")
+		}
+	}
 	names := []string{"a", "b", "c", "d", "n.x", "n.y", "e1", "e2", "r1", "r2", "l.0", "zz", "n.x.k", "a.b.c", "u", "u.inner", "s.inner"}
 	if c08 {
 		// names that pass through other settings (which may be references themselves)
-		names = append(names, "a.b", "b.k", "n", "c.x", "a.n.x")
+		names = append(names, "a.b", "b.k", "n", "c.x", "a.n.x", "l")
 	}
 	for i := 0; i < g.N; i++ {
 		eg := &expGen{r: r, names: names}
